@@ -52,11 +52,22 @@ Verdict(r) ==
                                              p == IF ps = {} THEN 1 ELSE CHOOSE x \in ps : TRUE IN
                                      [t |-> r.map[k].t, got |-> r.map[k].hosts, ref |-> Ref(r, p), pos |-> p]
                 ELSE [t |-> 0, got |-> <<>>, ref |-> <<>>, pos |-> 0]
+      \* the replica map a real token aware policy holds after queries were routed through it (map2 /
+      \* look2, empty when the case was not run through a policy): the same predicates - the replicas
+      \* associated with a token do not depend on the queries routed before
+      map2Kinds == UNION {EntryFail(r, r.map2[k]) : k \in 1 .. Len(r.map2)}
+      look2Kinds == UNION {LookFail(r, r.look2[k]) : k \in 1 .. Len(r.look2)}
+      bad2 == {k \in 1 .. Len(r.look2) : LookFail(r, r.look2[k]) # {}}
+      sample2 == IF bad2 = {} THEN [t |-> 0, got |-> <<>>, ref |-> <<>>, pos |-> 0]
+                 ELSE LET k == CHOOSE x \in bad2 : \A y \in bad2 : x <= y
+                          p == PrimaryIndex(r.tokens, r.look2[k].t) IN
+                      [t |-> r.look2[k].t, got |-> r.look2[k].hosts, ref |-> Ref(r, p), pos |-> p]
   IN [id |-> r.id, part |-> r.part, strat |-> r.strat, pclass |-> r.pclass, absentdc |-> NamesAbsentDc(r),
+      map2kinds |-> map2Kinds, look2kinds |-> look2Kinds, sample2 |-> sample2,
       mapkinds |-> mapKinds, lookkinds |-> lookKinds,
       nbadlook |-> Cardinality(badLook), nlook |-> Len(r.look), sample |-> sample]
 
-Holds(v) == v.pclass = "none" /\ v.mapkinds = {} /\ v.lookkinds = {}
+Holds(v) == v.pclass = "none" /\ v.mapkinds = {} /\ v.lookkinds = {} /\ v.map2kinds = {} /\ v.look2kinds = {}
 
 Report == l > 0 =>
             IF ~WellFormed(Rec) THEN PrintT(<<"MALFORMED", ToJson([id |-> Rec.id])>>)
